@@ -258,7 +258,10 @@ func runC19d(t *testing.T) func(c c19dCase, st *verifkit.Stats) *verifkit.Failur
 			if pit.CollectorBgpId.String() != rsRouterID {
 				return verifkit.Failf("mrt-collector-id", "collector BGP id %s, router id %s", pit.CollectorBgpId, rsRouterID)
 			}
-			type want struct{ peer, attrs string; id uint32 }
+			type want struct {
+				peer, attrs string
+				id          uint32
+			}
 			loc := map[string][]want{}
 			for _, fam := range []bgp.Family{bgp.RF_IPv4_UC, bgp.RF_IPv6_UC} {
 				_ = n.s.ListPath(apiutil.ListPathRequest{TableType: api.TableType_TABLE_TYPE_GLOBAL, Family: fam}, func(prefix bgp.NLRI, paths []*apiutil.Path) {
